@@ -192,6 +192,14 @@ func pluginRefs(b []byte) ([]pref18, bool) {
 			}
 		case "PatchStrategicMergeTransformer":
 			scalarOrSeq(get("paths"), "PK8s")
+		case "HelmChartInflationGenerator":
+			scalarOrSeq(get("valuesFile"), "PFile")
+			scalarOrSeq(get("additionalValuesFiles"), "PFile")
+			if home := get("chartHome"); home != nil {
+				out = append(out, pref18{"PHome", home.YNode().Value})
+			} else {
+				out = append(out, pref18{"PHomeDefault", ""})
+			}
 		}
 	}
 	return out, true
@@ -280,9 +288,6 @@ func makeTables18(t *tree18) *tables18 {
 			tb.kusts[id] = k
 		}
 		if isRes18([]byte(c)) {
-			if strings.Contains(c, "kind: HelmChartInflationGenerator") {
-				out("helm")
-			}
 			tb.res[id] = true
 			if refs, ok := pluginRefs([]byte(c)); ok && len(refs) > 0 {
 				tb.plugs[id] = refs
@@ -330,8 +335,23 @@ func makeTables18(t *tree18) *tables18 {
 				}
 			}
 		}
-		if len(k.HelmCharts) > 0 || k.HelmGlobals != nil || len(k.HelmChartInflationGenerator) > 0 { //nolint:staticcheck
-			out("helm")
+		for _, h := range k.HelmChartInflationGenerator { //nolint:staticcheck
+			if remoteLike(h.Values) || remoteLike(h.ChartHome) {
+				out("remote-like entry")
+			}
+		}
+		for _, h := range k.HelmCharts {
+			if remoteLike(h.ValuesFile) {
+				out("remote-like entry")
+			}
+			for _, a := range h.AdditionalValuesFiles {
+				if remoteLike(a) {
+					out("remote-like entry")
+				}
+			}
+		}
+		if k.HelmGlobals != nil && remoteLike(k.HelmGlobals.ChartHome) {
+			out("remote-like entry")
 		}
 	}
 	for _, refs := range tb.plugs {
@@ -380,10 +400,22 @@ func kustTerm(k *types.Kustomization) string {
 	for _, r := range k.Replacements {
 		repl = append(repl, r.Path)
 	}
+	var hinfl, hcharts []string
+	for _, h := range k.HelmChartInflationGenerator { //nolint:staticcheck
+		hinfl = append(hinfl, fmt.Sprintf("(%s, %s)", coqStr(h.Values), coqStr(h.ChartHome)))
+	}
+	for _, h := range k.HelmCharts {
+		hcharts = append(hcharts, fmt.Sprintf("(%s, %s)", coqStr(h.ValuesFile), coqStrList(h.AdditionalValuesFiles)))
+	}
+	hglob := "None"
+	if k.HelmGlobals != nil {
+		hglob = "(Some " + coqStr(k.HelmGlobals.ChartHome) + ")"
+	}
 	//nolint:staticcheck
-	return fmt.Sprintf("(mkKust %s %s %s %s %s %s [%s] [%s] %s %s %s %s %s %s %s)", oa,
+	return fmt.Sprintf("(mkKust %s %s %s %s %s %s [%s] [%s] [%s] [%s] %s %s %s %s %s %s %s %s)", oa,
 		coqStrList(k.Bases), coqStrList(k.Components), coqStrList(k.Configurations), coqStrList(k.Crds),
 		coqStrList(k.Resources), strings.Join(cms, "; "), strings.Join(secs, "; "),
+		strings.Join(hinfl, "; "), strings.Join(hcharts, "; "), hglob,
 		coqStrList(pats), coqStrList(p69), coqStrList(psm), coqStrList(repl),
 		coqStrList(k.Generators), coqStrList(k.Transformers), coqStrList(k.Validators))
 }
@@ -479,7 +511,7 @@ func listingTerm(l []fsEntry, tb *tables18, g geo18) string {
 	return "[" + strings.Join(parts, "; ") + "]"
 }
 
-var opCode18 = map[string]int{"Exists": 0, "IsDir": 1, "Mkdir": 2, "MkdirAll": 3, "CleanedAbs": 4, "ReadFile": 5, "WriteFile": 6, "RemoveAll": 7}
+var opCode18 = map[string]int{"Exists": 0, "IsDir": 1, "Mkdir": 2, "MkdirAll": 3, "CleanedAbs": 4, "ReadFile": 5, "WriteFile": 6, "RemoveAll": 7, "Walk": 8}
 
 func traceTerm(tr []fsEvent) (string, bool) {
 	parts := make([]string, len(tr))
@@ -1077,6 +1109,13 @@ func processTree18(r *Run, t *tree18, toModel bool, ondiskBudget *int) {
 			r.Count("ondisk-subprocess", "process exited, newDir absent")
 		default:
 			r.Count("ondisk-subprocess", "not reproduced on disk (operation sequence differs)")
+		}
+	}
+	for _, homes := range chartHomes18(t, initialFS) {
+		for _, h := range homes {
+			if insideDir(h, g.absNewDir) && tb.inModel {
+				tb.inModel, tb.why = false, "newDir inside a chart home"
+			}
 		}
 	}
 	if !tb.inModel {
